@@ -122,6 +122,8 @@ pub struct Outcome {
     pub diverged: Option<(usize, String)>,
     pub panicked: Vec<bool>,
     pub notes: Vec<(usize, &'static str, usize, usize)>,
+    /// where every actor was when the execution ended (diagnostics, goes into replay files)
+    pub final_state: Vec<String>,
 }
 
 pub struct ExecOpts {
@@ -410,7 +412,8 @@ pub fn execute(
                 }
             }
         }
-        if opts.vclock && opts.offer_tick && ctl.next_timer().is_some() {
+        // (not while the timer thread is held up by a coroutine it runs: the models' Tick fires at once)
+        if opts.vclock && opts.offer_tick && ctl.next_timer().is_some() && !ctl.timer_is_held() {
             env.push(("tick".into(), String::new()));
         }
         for (k, e) in opts.custom_env.iter().enumerate() {
@@ -572,7 +575,11 @@ pub fn execute(
         let g = ctl.lock();
         g.actors.iter().map(|a| matches!(a.st, ASt::Finished(true))).collect()
     };
-    (Outcome { end, trace, names, schedule, diverged, panicked, notes }, handles)
+    let final_state: Vec<String> = {
+        let g = ctl.lock();
+        g.actors.iter().map(|a| format!("{} st={:?} co={:?} at={:?} k={} host={:?} busy={}", a.name, a.st, g.co.get(&a.vid), a.at.as_ref().map(|p| p.site), a.kactive, a.hosting, a.passive_busy)).collect()
+    };
+    (Outcome { end, trace, names, schedule, diverged, panicked, notes, final_state }, handles)
 }
 
 /// after the oracle has looked at the outcome: open the gates, let `unstick` release actors that
@@ -724,6 +731,13 @@ impl Chooser for Replay {
                     }
                 }
                 Step::Env { what, arg } => {
+                    // a Tick is offered only while the timer thread is free: it may need a moment to get rid of the
+                    // coroutine it has just run
+                    if what == "tick" && !v.env.iter().any(|e| e.0 == "tick") && self.div.is_none() && self.waits < 40 {
+                        self.waits += 1;
+                        return Some(Choice::Wait);
+                    }
+                    self.waits = 0;
                     self.pos += 1;
                     match v.env.iter().position(|e| e.0 == what && (e.1 == arg || what == "tick")) {
                         Some(k) => return Some(Choice::Env(k)),
